@@ -270,11 +270,21 @@ func goTypedRoundTrip(v vu.Val, t vu.Type) (back vu.Val, err error) {
 }
 
 func consDetail(cs []string) string {
-	var keep []string
+	// value-level constructs name the detail; the context-level one (interpreter + annotated let +
+	// any-object) only when nothing in the value itself is special; cTypedAny shows as a panic
+	// with its own signature
+	var keep, ctx []string
 	for _, c := range cs {
-		if c != cTypedAny { // shows as a panic with its own signature, not as a detail
+		switch c {
+		case cTypedAny:
+		case cTreeLetAny:
+			ctx = append(ctx, c)
+		default:
 			keep = append(keep, c)
 		}
+	}
+	if len(keep) == 0 {
+		keep = ctx
 	}
 	if len(keep) == 0 {
 		return "plain"
